@@ -11,6 +11,7 @@ fn main() {
     let id = args[1].clone();
     let mut cfg = RunCfg { thorough: false, seed: 1, case: None };
     let mut out: Option<String> = None;
+    let (mut first, mut count) = (0u64, 0u64);
     let mut i = 2;
     while i < args.len() {
         match args[i].as_str() {
@@ -26,6 +27,14 @@ fn main() {
                 out = args.get(i + 1).cloned();
                 i += 1;
             }
+            "--first" => {
+                first = args.get(i + 1).and_then(|s| s.parse().ok()).unwrap_or(0);
+                i += 1;
+            }
+            "--count" => {
+                count = args.get(i + 1).and_then(|s| s.parse().ok()).unwrap_or(0);
+                i += 1;
+            }
             "--case" => {
                 cfg.case = args.get(i + 1).cloned();
                 i += 1;
@@ -37,6 +46,10 @@ fn main() {
     // panics are data here (caught and classified); keep stderr quiet
     if std::env::var("VH_VERBOSE_PANIC").is_err() {
         std::panic::set_hook(Box::new(|_| {}));
+    }
+    if id == "C06-child" {
+        vh::props::c06::child_main(cfg.seed, first, count, out.as_deref().unwrap_or("c06-child.json"));
+        return;
     }
     let t0 = Instant::now();
     let Some(res) = run(&id, &cfg) else {
